@@ -34,6 +34,7 @@ def pinned_update(repo, lam, v_zero):
 
 def check(ctx):
     repo = ctx.repo
+    ctx.rule("R06.5", "terminal membership is computed from the current outlines: no memoised geometry survives a change of what it was computed from", 1)
     ctx.rule("R06.1", "on a pinned row the update returns the configured terminal value: psi' == v", 2)
     ctx.rule("R06.2", "rows of pinned sites hold only the identity entry; every other block is masked by its *row* index; "
                       "with pinning disabled nothing is masked", 6)
@@ -96,6 +97,9 @@ def check(ctx):
            message="terminal sites are pinned or masked although terminal_psi is None",
            consequence="terminal sites do not evolve freely when the terminal value is unset")
     wiring(ctx)
+    from ..effects import memo_discipline
+    memo_discipline(ctx, "R06.5", classes=("Polygon", "TerminalInfo"), floor=0, consequence="after a device (or a terminal polygon) was moved in place, Device.terminal_info() selects the boundary sites "
+                                  "with the old terminal outline: some terminal sites stay unpinned and some sites outside the terminals are pinned")
     ctx.assume("SolverOptions.terminal_psi default 0 is the 'normal-metal contact'; pinning of v=0 is exact also in floating point (z=w=0)")
 
 
